@@ -116,7 +116,7 @@ theorem C06_eof_after_all (hc : 0 < cfg.c) (hr : Reachable (ConcMap.sys cfg) s) 
   have hdone : s.prod = .done := hb.tgtCl.mp hcl
   have hex : s.wExit = cfg.c := hb.done_exit hdone
   have hw := hb.workers
-  have heof : s.eof = true := he.prod_eof (Or.inr (Or.inr hdone))
+  have heof : s.eof = true := he.prod_eof (Or.inr (Or.inr (Or.inr hdone)))
   refine ⟨(hb.eof_cursor heof).1, heof, hb.srcCh.mpr (Or.inr hdone), (he.exit_closed (by omega)).2,
     List.eq_nil_of_length_eq_zero (by omega), List.eq_nil_of_length_eq_zero (by omega), hex, ?_⟩
   intro hres
@@ -154,8 +154,8 @@ theorem C06_exactly_once {α β : Type} (src : List α) (f : α → β) (hc : 0 
     mapped and delivered, EOF is seen, the terminal returns): the hypotheses of `C06_exactly_once` are met. -/
 def demoSchedule : List ConcMap.Label :=
   [.pTop, .pEmitVal, .pSend, .wRecv, .pTop, .pEmitVal, .pSend, .wMapOk 0, .wSend (.val 0), .cCheck, .cRecv, .cNext,
-   .wRecv, .wMapOk 1, .wSend (.val 1), .pTop, .pEmitEof, .pCloseSrc, .wExitClosed, .pWait, .cCheck, .cRecv, .cNext,
-   .cCheck, .cClosed, .cClose0, .cClose1, .cClose2]
+   .wRecv, .wMapOk 1, .wSend (.val 1), .pTop, .pEmitEof, .pStop, .pCloseSrc, .wExitClosed, .pWait, .cCheck, .cRecv, .cNext,
+   .cCheck, .cClosed, .cClose0, .cCloseW, .cCloseP, .cClose1, .cClose2]
 
 example : ∃ s, Reachable (ConcMap.sys { n := 2, c := 1 }) s ∧
     (!s.ctx0 && !s.faulted && !s.stopped && s.res == some .ok && s.delivered == [0, 1] &&
